@@ -247,6 +247,65 @@ func c09Scenarios() []*concScenario {
 		closeSession(x, s)
 	}, sessionPost)
 
+	// H4b: two API goroutines start hunting the same station at the same time: StartHunt is idempotent per MAC, one loop
+	add("H4b", 2, func(x *concExec) {
+		concReset()
+		s, _ := concSession()
+		x.data["session"] = s
+		h, _ := arp.New(s)
+		target := packet.Addr{MAC: env.MAC1, IP: ip4a}
+		x.data["t0"] = vsched.NowNanos()
+		threads(
+			func() { h.StartHunt(target) },
+			func() { h.StartHunt(target); h.IsHunting(ip4a) },
+		)
+		vsched.WaitIdle() // every loop has sent its first announcement and waits for its ticker
+		h.Close()
+		vsched.WaitIdle()
+		x.observe(fmt.Sprintf("hunt=%d", h.VerifHuntLen()))
+		closeSession(x, s)
+	}, func(x *concExec) {
+		// one loop sends one announcement per cycle: two before the first cycle ended mean two loops (judged only on
+		// executions where the explorer did not advance the clock past a runnable goroutine)
+		s, _ := x.data["session"].(*packet.Session)
+		t0, _ := x.data["t0"].(int64)
+		if s != nil && x.data["earlyClock"].(int) == 0 {
+			forged := 0
+			for _, f := range s.Conn.(*env.Conn).Frames {
+				info := refnet.DecodeSent(f.Data, env.HostMAC)
+				if info.Kind == "arp" && info.ARPSpa == ip4rtr && bytes.Equal(info.ARPSha[:], env.HostMAC) && bytes.Equal(info.DstMAC[:], env.MAC1) && f.Time < t0+int64(6*time.Second) {
+					forged++
+				}
+			}
+			if forged > 1 {
+				x.fail("idempotence", fmt.Sprintf("%d forged announcements before the first cycle ended after two concurrent StartHunt calls for one MAC: more than one loop is running", forged))
+			}
+		}
+		sessionPost(x)
+	})
+
+	// H1b: the packet loop sees a frame from the very host that purge is marking offline || reader
+	add("H1b", 4, func(x *concExec) {
+		concReset()
+		s, _ := concSession()
+		x.data["session"] = s
+		parseNotify(s, frame4(env.MAC2, ip4b))
+		vsched.Advance(int64(packet.DefaultOfflineDeadline + time.Minute)) // purge is due and will mark c2/b offline
+		threads(
+			func() {
+				parseNotify(s, frame4(env.MAC2, ip4b))
+				parseNotify(s, frame4(env.MAC2, ip4b))
+			},
+			func() {
+				s.FindIP(ip4b)
+				s.IPAddrs(env.MAC2)
+			},
+		)
+		vsched.WaitIdle()
+		x.observe(fmt.Sprintf("hosts=%d notes=%d", len(s.GetHosts()), drain(s)))
+		closeSession(x, s)
+	}, sessionPost)
+
 	// H5: icmp6 handler: router advertisements || StartHunt/StopHunt || spoof loop || Close
 	add("H5", 3, func(x *concExec) {
 		concReset()
@@ -623,7 +682,7 @@ func raFrame(mac []byte, src netip.Addr, flags byte, lifetime uint16, options []
 
 func c09Run(c *core.Ctx, args []string) {
 	c.Res.Level = "model_checking"
-	c.Res.Rule = "stateless DFS over every schedule of each harness H1..H14, H5c, H6b, H6c, H7c (2-3 API/packet-loop threads plus the goroutines the code starts itself plus the clock) up to the deviation bound (thorough: each harness also with its threads started in the two rotated orders); every execution runs to completion under the controlled scheduler; oracles: no deadlock, no panic, no data race (race detector build, scheduler hand-offs invisible to it), table invariant at the final quiescent point, no goroutine left after Close. distinct = distinct observation vectors"
+	c.Res.Rule = "stateless DFS over every schedule of each harness H1..H14, H1b, H4b, H5c, H6b, H6c, H7c (2-3 API/packet-loop threads plus the goroutines the code starts itself plus the clock) up to the deviation bound (thorough: each harness also with its threads started in the two rotated orders); every execution runs to completion under the controlled scheduler; oracles: no deadlock, no panic, no data race (race detector build, scheduler hand-offs invisible to it), table invariant at the final quiescent point, no goroutine left after Close. distinct = distinct observation vectors"
 	c.Res.Assumptions = []string{"scheduling points at every lock, channel, spawn, timer and connection write of the instrumented packages; unsynchronised accesses are caught by the race detector on the explored schedules rather than interleaved", "bounded by the deviation (preemption) bound and the clock horizon; at most 3 harness threads"}
 	name := strings.TrimSuffix(c.Job, ".race")
 	bound := 2 // both tiers; the thorough tier adds the rotated thread orders of every harness
